@@ -284,7 +284,12 @@ func H_C17_json() {
 		sb.WriteString(jsonWS())
 	}
 	text := sb.String()
-	got, err := parse.Value(text)
+	// the JSON document has no top-level comma: IgnoreCommas changes nothing for it
+	pcfg := parse.DefaultConfig
+	if verif.Choice("ignore-commas", 2) == 1 {
+		pcfg.IgnoreCommas = true
+	}
+	got, err := parse.ValueWithConfig(text, pcfg)
 	verif.Reach("json parsed")
 	lay := []string{"compact", "spaced", "indented", "any-whitespace"}[layout]
 	verif.Assert(err == nil, "C17/JSON text accepted/"+lay)
